@@ -75,6 +75,30 @@ type fileState struct {
 	// The property speaks of the bytes written for the acknowledged call, so such a file is not
 	// held against a later acknowledgement; it is reported as a statistic instead.
 	residue bool
+	// unsynced: byte ranges written since the last successful fsync of the file. lost: ranges that
+	// were unsynced when an fsync of the file FAILED and that have not been written again since -
+	// after a failed fsync the kernel marks the pages clean, so a later successful fsync says
+	// nothing about them (the "fsyncgate" semantics); only writing them again helps.
+	unsynced [][2]int64
+	lost     [][2]int64
+}
+
+// subtractRange removes [a,b) from a list of ranges.
+func subtractRange(rs [][2]int64, a, b int64) [][2]int64 {
+	var out [][2]int64
+	for _, r := range rs {
+		if b <= r[0] || a >= r[1] {
+			out = append(out, r)
+			continue
+		}
+		if r[0] < a {
+			out = append(out, [2]int64{r[0], a})
+		}
+		if b < r[1] {
+			out = append(out, [2]int64{b, r[1]})
+		}
+	}
+	return out
 }
 
 // Violation of the trace invariant.
@@ -95,6 +119,8 @@ type Stats struct {
 	// AckWithResidue: acknowledgements given while another file still held un-fsynced bytes that a
 	// failed call of an earlier WAL instance had written and a restart had adopted.
 	AckWithResidue int
+	// LostAdopted: files whose bytes had been lost to a failed fsync when a new WAL instance opened them.
+	LostAdopted int
 	// FsyncInStoreLogs lists, for the thread that issues the markers, the ordinals
 	// (1-based, among that thread's fsync calls) of the fsyncs issued inside StoreLogs calls.
 	FsyncInStoreLogs []int
@@ -152,6 +178,12 @@ func Check(calls []Sys, dir string, segSize int) (*Violation, Stats) {
 					if fs.dirty {
 						fs.residue = true
 					}
+					if len(fs.lost) > 0 {
+						// what an earlier instance lost to a failed fsync cannot be told from good data by
+						// the instance that re-reads it from the page cache: an observation, not a verdict
+						st.LostAdopted++
+						fs.lost = nil
+					}
 				}
 			}
 			if curOp == "StoreLogs" && curPhase == "begin" {
@@ -171,6 +203,9 @@ func Check(calls []Sys, dir string, segSize int) (*Violation, Stats) {
 				for p, fs := range files {
 					if !strings.HasSuffix(p, ".wal") || !fs.exists {
 						continue
+					}
+					if len(fs.lost) > 0 {
+						return vio("ack-after-failed-fsync-without-rewrite", "step %s StoreLogs returned nil although bytes %v of %s were written before an fsync of that file failed and have not been written again: a failed fsync leaves the pages marked clean, so the later successful fsync does not cover them", step, fs.lost, filepath.Base(p)), st
 					}
 					if fs.dirty && fs.residue && !fs.writtenSince {
 						st.AckWithResidue++
@@ -266,6 +301,17 @@ func Check(calls []Sys, dir string, segSize int) (*Violation, Stats) {
 			fs.dirty = true
 			fs.writtenSince = true
 			fs.everWritten = true
+			if c.Name == "pwrite64" && strings.HasSuffix(m[2], ".wal") {
+				f := strings.Split(c.Args, ", ")
+				if len(f) >= 4 {
+					n, e1 := strconv.ParseInt(strings.TrimSpace(f[len(f)-2]), 10, 64)
+					off, e2 := strconv.ParseInt(strings.TrimSpace(f[len(f)-1]), 10, 64)
+					if e1 == nil && e2 == nil && n > 0 {
+						fs.unsynced = append(fs.unsynced, [2]int64{off, off + n})
+						fs.lost = subtractRange(fs.lost, off, off+n)
+					}
+				}
+			}
 		case "fsync", "fdatasync":
 			if c.Name == "fsync" && c.Tid == markerTid {
 				fsyncOrd++
@@ -281,6 +327,12 @@ func Check(calls []Sys, dir string, segSize int) (*Violation, Stats) {
 				}
 			}
 			m := reFdPath.FindStringSubmatch(c.Args)
+			if m != nil && failed && m[2] != dir && inDir(m[2]) {
+				if fs := files[m[2]]; fs != nil {
+					fs.lost = append(fs.lost, fs.unsynced...)
+					fs.unsynced = nil
+				}
+			}
 			if m != nil && failed && m[2] == dir {
 				// the directory fsync of a Delete failed: that Delete reports an error, i.e. the
 				// deletion is not "reported done" (the WAL only logs it); nothing is owed for it
@@ -306,6 +358,7 @@ func Check(calls []Sys, dir string, segSize int) (*Violation, Stats) {
 			if inDir(m[2]) {
 				get(m[2]).dirty = false
 				get(m[2]).residue = false
+				get(m[2]).unsynced = nil
 			}
 		case "unlinkat", "unlink":
 			q := reQuoted.FindStringSubmatch(c.Args)
